@@ -476,3 +476,28 @@ def c06_x(ctx, R):
     for o in ok_outcomes(outs):
         R.inst('C06.X', 'v1-accept-requires-PROXY-first/' + str(variant_of(o)), T.eq(('bytes', tables.V1_PREFIX), t0) in o['pc'],
                expected='tok0 == "PROXY"', found=pc_text(o['pc'], 5), entry=m.fp)
+
+
+def c01_provenance_only(ctx, R, rule):
+    """keyword / field-order facts of the parser needed by the formatter agreement (C08.F)"""
+    m = model(ctx, R)
+    ev, outs = m.fp_outs()
+    if not outs:
+        return
+    srcs = split_sources(outs)
+    if len(srcs) != 1:
+        return
+    src = next(iter(srcs))
+    tk = lambda k: ('call', 'tok', (src, I(k)))
+    for o in ok_outcomes(outs):
+        var = variant_of(o)
+        kw = {'Tcp4': tables.V1_TCP4, 'Tcp6': tables.V1_TCP6, 'Unknown': tables.V1_UNKNOWN}.get(var)
+        R.inst(rule, 'parser-keyword-for-kind/' + str(var), kw is not None and T.eq(('bytes', kw), tk(1)) in o['pc'], expected='tok1 == %r' % kw, found=pc_text(o['pc'], 8), entry=m.fp)
+        if var in ('Tcp4', 'Tcp6'):
+            a = T.adt_field(T.adt_field(T.adt_field(o['ret'], '0'), 'addresses'), '0')
+            order = []
+            for fld in ('source_address', 'destination_address', 'source_port', 'destination_port'):
+                v = T.adt_field(a, fld)
+                toks = tokens_in(v)
+                order.append(next(iter(toks))[2][1][1] if len(toks) == 1 else None)
+            R.inst(rule, 'parser-field-order/' + var, order == [2, 3, 4, 5], expected='[2, 3, 4, 5]', found=str(order), entry=m.fp)
